@@ -34,12 +34,24 @@ def groupRuns : List Script → List (Text.Bytes × List Script)
     | (g, ts) :: more => if g == t.info.group then (g, t :: ts) :: more else (t.info.group, [t]) :: (g, ts) :: more
     | [] => [(t.info.group, [t])]
 
-/-- the failures a scripted test reports, in order (nothing after a `failx` runs) -/
-def scriptFailures : List Act → List (Text.Bytes × Nat × Text.Bytes)
+/-- the failures a scripted test reports, in order, as (file, line, details): the body's (nothing after
+    a `failx` runs; a failure without location is located at the test, one without message says
+    "no message"), then those added by the plugin's post-test action -/
+def bodyFailures (t : TestInfo) : List Act → List (Text.Bytes × Nat × Text.Bytes)
   | [] => []
-  | .fail f l m :: as => (f, l, m) :: scriptFailures as
+  | .fail f l m :: as => (f, l, m) :: bodyFailures t as
   | .failExit f l m :: _ => [(f, l, m)]
-  | _ :: as => scriptFailures as
+  | .failMsg m :: as => (t.file, t.line, m) :: bodyFailures t as
+  | .failLoc f l :: as => (f, l, lit "no message") :: bodyFailures t as
+  | _ :: as => bodyFailures t as
+
+def pluginFailures (t : TestInfo) : List Act → List (Text.Bytes × Nat × Text.Bytes)
+  | [] => []
+  | .postFail m :: as => (t.file, t.line, m) :: pluginFailures t as
+  | _ :: as => pluginFailures t as
+
+def scriptFailures (t : TestInfo) (acts : List Act) : List (Text.Bytes × Nat × Text.Bytes) :=
+  bodyFailures t acts ++ pluginFailures t acts
 
 /-- skeleton of what the stream must say: kind, name, and for failures (file, line, details) -/
 inductive Want
@@ -50,7 +62,7 @@ deriving Inhabited
 
 def wantTest (t : Script) : List Want :=
   if t.info.willRun then
-    [.testStarted t.info.name] ++ (scriptFailures t.acts).map (fun (f, l, m) => .testFailed t.info f l m) ++
+    [.testStarted t.info.name] ++ (scriptFailures t.info t.acts).map (fun (f, l, m) => .testFailed t.info f l m) ++
       [.testFinished t.info.name]
   else [.testStarted t.info.name, .testIgnored t.info.name, .testFinished t.info.name]
 
@@ -101,8 +113,9 @@ def specRun (reg : Reg) (out : Text.Bytes) : Option String :=
   | .ok msgs =>
     let scripts := reg.scripts
     if scripts.any (fun t => t.info.group.isEmpty) then none      -- empty group names: outside the quantifier
+    else if !(failuresInOpenTest none msgs) then
+      some "a failure message does not belong to the currently open test (its name is not the name announced by testStarted, or no test is open)"
     else if !(balanced msgs) then some "messages are not balanced (suite/test start and finish do not pair up)"
-    else if !(failuresInOpenTest none msgs) then some "a failure message does not belong to the open test"
     else matchAll 0 (wantAll reg.filter scripts) (msgs.filter (fun m => !(isText m)))
 
 def specAll (ops : List Proto.Op) : Option String :=
